@@ -385,7 +385,12 @@ func runDispatchFile(in, out, targetsFile, tmp string) (int, error) {
 				own = append(own, chars(strings.Join(t, "")))
 			}
 		}
-		verdict := func(f *server.ExtAuthZFilter, path string) int {
+		verdict := func(f *server.ExtAuthZFilter, path string) (v int) {
+			defer func() {
+				if r := recover(); r != nil {
+					v = 2 // a crash is no decision at all: it differs from every decision the sequential pass made
+				}
+			}()
 			resp, err := f.Check(ctx, dispatchReq(path, nil))
 			if err == nil && resp != nil && resp.GetStatus().GetCode() == 0 {
 				return 0
